@@ -28,7 +28,7 @@ json gen_family_text(Rng &r, int tier)
 	tg.max_items = tier ? 8 : 6;
 	tg.ctx_flags = flags;
 	tg.comments = 1;
-	tg.include_targets = {"/inc/a.conf", "/inc/a.conf", "/inc", "/inc/nope.conf"}; // also a directory and a missing file
+	tg.include_targets = {"/inc/a.conf", "/inc/a.conf", "/inc", "/inc/nope.conf", "/inc/self.conf"}; // also a directory, a missing file and a file that includes itself (refused at the depth limit)
 	std::vector<Chunk> main_chunks = gen_text(r, schema["opts"], tg);
 	TextGen tg2 = tg;
 	tg2.include_targets = {"/inc/b.conf"};
@@ -37,6 +37,7 @@ json gen_family_text(Rng &r, int tier)
 	json fs = json::array();
 	fs.push_back({{"path", "/inc/a.conf"}, {"kind", "file"}, {"chunks", chunks_to_json(inc_chunks)}});
 	fs.push_back(fs_file("/inc/b.conf", "# leaf\n"));
+	fs.push_back(fs_file("/inc/self.conf", "# again\ninclude(\"/inc/self.conf\")\n"));
 	fs.push_back({{"path", "/inc"}, {"kind", "dir"}});
 	plan["world"] = {{"fs", fs}, {"env", {{"X", "1"}}}};
 	plan["knobs"] = {{"fill", r.chance(1, 2) ? 0xA5 : 0x00}, {"tty", r.chance(1, 6)}};
